@@ -481,25 +481,51 @@ Fixpoint tokens_eqb (a b : list token) : bool :=
   end.
 
 (* escaper cases: input, attrEscaper output (via a value="…" template), urlFilter|urlNormalizer|attrEscaper output *)
-Record escase := { es_s : string; es_attr : string; es_url : string }.
+Record escase := { es_s : string; es_attr : string; es_url : string; es_text : string }.
 Definition escase_agree (c : escase) : bool :=
-  seqb (attr_escape (es_s c)) (es_attr c) && seqb (url_attr (es_s c)) (es_url c).
+  seqb (attr_escape (es_s c)) (es_attr c) && seqb (url_attr (es_s c)) (es_url c)
+  && seqb (html_escape (es_s c)) (es_text c).
 Definition has_bad_attr_char (s : string) : bool :=
   contains_chr 34 s || contains_chr 60 s || contains_chr 62 s || contains_chr 39 s || contains_chr 0 s.
 (* inertness, evaluated on the implementation's output *)
 Definition escase_spec (c : escase) : bool :=
   negb (has_bad_attr_char (es_attr c)) && seqb (decode_charrefs (es_attr c)) (nul_to_fffd (es_s c))
   && negb (has_bad_attr_char (es_url c))
-  && (seqb (decode_charrefs (es_url c)) (url_normalize (es_s c)) || seqb (decode_charrefs (es_url c)) FAILSAFE).
+  && (seqb (decode_charrefs (es_url c)) (url_normalize (es_s c)) || seqb (decode_charrefs (es_url c)) FAILSAFE)
+  && negb (contains_chr 60 (es_text c)) && seqb (decode_charrefs (es_text c)) (nul_to_fffd (es_s c)).
 Definition check_escases := check_cases escase_agree escase_spec.
 
-(* form cases: kind, data, emitted HTML *)
-Record fmcase := { fm_kind : Z; fm_data : form_data; fm_html : string }.
+(* the element view of a token sequence, as a DOM shows it: every element
+   except html/head/body with its attributes and its text child *)
+Definition elem_view := (string * list (string * string) * string)%type.
+Definition wrapper_tag (n : string) : bool := seqb n "html" || seqb n "head" || seqb n "body".
+Fixpoint dom_view (l : list token) : list elem_view :=
+  match l with
+  | [] => []
+  | TStart n a _ :: rest =>
+      if wrapper_tag n then dom_view rest
+      else match rest with
+           | TText s :: _ => (n, a, s) :: dom_view rest
+           | _ => (n, a, EmptyString) :: dom_view rest
+           end
+  | _ :: rest => dom_view rest
+  end.
+Fixpoint views_eqb (a b : list elem_view) : bool :=
+  match a, b with
+  | [], [] => true
+  | (n, at1, t) :: a', (n', at2, t') :: b' => seqb n n' && attrs_eqb at1 at2 && seqb t t' && views_eqb a' b'
+  | _, _ => false
+  end.
+
+(* form cases: kind, data, emitted HTML, and the element view of the DOM an
+   independent HTML5 parser (golang.org/x/net/html) builds from the emitted HTML *)
+Record fmcase := { fm_kind : Z; fm_data : form_data; fm_html : string; fm_dom : list elem_view }.
 Definition fmcase_agree (c : fmcase) : bool :=
   seqb (render_form (kind_of_form (fm_kind c)) (fm_data c)) (fm_html c).
 Definition opt_tokens_eqb (a : option (list token)) (b : list token) : bool :=
   match a with Some x => tokens_eqb x b | None => false end.
 (* structure fixed: the emitted bytes tokenize to exactly the intended form *)
 Definition fmcase_spec (c : fmcase) : bool :=
-  opt_tokens_eqb (tokenize_form (fm_html c)) (intended_of (kind_of_form (fm_kind c)) (fm_data c)).
+  opt_tokens_eqb (tokenize_form (fm_html c)) (intended_of (kind_of_form (fm_kind c)) (fm_data c))
+  && views_eqb (fm_dom c) (dom_view (intended_of (kind_of_form (fm_kind c)) (fm_data c))).
 Definition check_fmcases := check_cases fmcase_agree fmcase_spec.
